@@ -539,12 +539,16 @@ impl<'a> Repr<'a> {
                 let opt_len = addr.len() + 2;
                 opt.set_data_len(opt_len.div_ceil(8) as u8); // round to next multiple of 8.
                 opt.set_link_layer_addr(addr);
+                // Ensure the padding up to the next multiple of 8 is zeroed.
+                opt.data_mut()[addr.len()..].fill(0);
             }
             Repr::TargetLinkLayerAddr(addr) => {
                 opt.set_option_type(Type::TargetLinkLayerAddr);
                 let opt_len = addr.len() + 2;
                 opt.set_data_len(opt_len.div_ceil(8) as u8); // round to next multiple of 8.
                 opt.set_link_layer_addr(addr);
+                // Ensure the padding up to the next multiple of 8 is zeroed.
+                opt.data_mut()[addr.len()..].fill(0);
             }
             Repr::PrefixInformation(PrefixInformation {
                 prefix_len,
